@@ -80,14 +80,63 @@ type svc struct {
 }
 
 type world struct {
-	svcs   []svc          // index k-1
-	byFull map[string]int // full id -> k
+	svcs   []svc                // index k-1
+	byFull map[string]int       // full id -> k
 	gids   map[string][3]uint64 // global id string (as stored by the contract) -> declared group
 	chains map[string]int       // chain name -> number (for output)
 	decl   map[[2]uint64]*pb.StringUint64Map
 	kids   map[[3]uint64][]string // declared group -> ids of the requests that carried it, in order of appearance
 	kidSet map[string]bool
 	sticky map[[3]uint64]string // declared group -> global id found for it
+}
+
+type retainedEv struct {
+	block  int
+	height uint64
+	meta   *pb.InterchainMeta
+	at     string
+}
+
+// the three per-chain maps of a block's InterchainMeta in the driver's output form
+func (w *world) renderMeta(meta *pb.InterchainMeta) (interface{}, interface{}, interface{}) {
+	var cnt []interface{}
+	{
+		keys := []string{}
+		for k := range meta.Counter {
+			keys = append(keys, k)
+		}
+		sort.Slice(keys, func(i, j int) bool { return w.chainNo(keys[i]) < w.chainNo(keys[j]) })
+		for _, k := range keys {
+			var l [][]int
+			for _, vi := range meta.Counter[k].Slice {
+				b2i := func(b bool) int {
+					if b {
+						return 1
+					}
+					return 0
+				}
+				l = append(l, []int{int(vi.Index), b2i(vi.Valid), b2i(vi.IsBatch)})
+			}
+			cnt = append(cnt, []interface{}{w.chainNo(k), l})
+		}
+	}
+	idmap := func(m map[string]*pb.StringSlice) []interface{} {
+		keys := []string{}
+		for k := range m {
+			keys = append(keys, k)
+		}
+		sort.Slice(keys, func(i, j int) bool { return w.chainNo(keys[i]) < w.chainNo(keys[j]) })
+		var res []interface{}
+		for _, k := range keys {
+			var l []interface{}
+			for _, id := range m[k].Slice {
+				l = append(l, w.token(id))
+			}
+			res = append(res, []interface{}{w.chainNo(k), orEmpty(l)})
+		}
+		return orEmpty(res)
+	}
+	return orEmpty(cnt), idmap(meta.TimeoutCounter), idmap(meta.MultiTxCounter)
 }
 
 type pendKid struct {
@@ -319,7 +368,11 @@ func runHistory(line []byte) (interface{}, error) {
 		return nil, err
 	}
 	out := map[string]interface{}{"err": ""}
-	fail := func(msg string) (interface{}, error) { out["err"] = msg; out["blocks"] = []interface{}{}; return out, nil }
+	fail := func(msg string) (interface{}, error) {
+		out["err"] = msg
+		out["blocks"] = []interface{}{}
+		return out, nil
+	}
 
 	w := &world{byFull: map[string]int{}, gids: map[string][3]uint64{}, chains: map[string]int{}, decl: map[[2]uint64]*pb.StringUint64Map{},
 		kids: map[[3]uint64][]string{}, kidSet: map[string]bool{}, sticky: map[[3]uint64]string{}}
@@ -445,6 +498,7 @@ func runHistory(line []byte) (interface{}, error) {
 	tm := constant.TransactionMgrContractAddr.Address()
 
 	var blocksOut []interface{}
+	var retained []retainedEv
 	for bi, raw := range h.Blocks {
 		if string(bytes.TrimSpace(raw)) == "0" {
 			if err := c.Restart(); err != nil {
@@ -604,46 +658,11 @@ func runHistory(line []byte) (interface{}, error) {
 		}
 		// block metadata
 		meta := ev.InterchainMeta
-		var cnt []interface{}
-		{
-			keys := []string{}
-			for k := range meta.Counter {
-				keys = append(keys, k)
-			}
-			sort.Slice(keys, func(i, j int) bool { return w.chainNo(keys[i]) < w.chainNo(keys[j]) })
-			for _, k := range keys {
-				var l [][]int
-				for _, vi := range meta.Counter[k].Slice {
-					b2i := func(b bool) int {
-						if b {
-							return 1
-						}
-						return 0
-					}
-					l = append(l, []int{int(vi.Index), b2i(vi.Valid), b2i(vi.IsBatch)})
-				}
-				cnt = append(cnt, []interface{}{w.chainNo(k), l})
-			}
-		}
-		ob["cnt"] = orEmpty(cnt)
-		idmap := func(m map[string]*pb.StringSlice) []interface{} {
-			keys := []string{}
-			for k := range m {
-				keys = append(keys, k)
-			}
-			sort.Slice(keys, func(i, j int) bool { return w.chainNo(keys[i]) < w.chainNo(keys[j]) })
-			var res []interface{}
-			for _, k := range keys {
-				var l []interface{}
-				for _, id := range m[k].Slice {
-					l = append(l, w.token(id))
-				}
-				res = append(res, []interface{}{w.chainNo(k), orEmpty(l)})
-			}
-			return orEmpty(res)
-		}
-		ob["to"] = idmap(meta.TimeoutCounter)
-		ob["mt"] = idmap(meta.MultiTxCounter)
+		cntV, toV, mtV := w.renderMeta(meta)
+		ob["cnt"], ob["to"], ob["mt"] = cntV, toV, mtV
+		// the event stays with us: what a subscriber was handed must never change afterwards
+		atDelivery, _ := json.Marshal([]interface{}{cntV, toV, mtV})
+		retained = append(retained, retainedEv{len(blocksOut), height, meta, string(atDelivery)})
 		tr := 0
 		if ev.Block.BlockHeader.TimeoutRoot != nil && *ev.Block.BlockHeader.TimeoutRoot != (types.Hash{}) {
 			tr = 1
@@ -772,6 +791,24 @@ func runHistory(line []byte) (interface{}, error) {
 		ob["h"] = height
 		blocksOut = append(blocksOut, ob)
 	}
+	// "an event, once delivered, never changes": look at every retained event again now that all later blocks have
+	// run, and at the persisted meta of its height
+	var mut []interface{}
+	for _, r := range retained {
+		c1, t1, m1 := w.renderMeta(r.meta)
+		late, _ := json.Marshal([]interface{}{c1, t1, m1})
+		if string(late) != r.at {
+			mut = append(mut, []interface{}{r.block, "event", json.RawMessage(r.at), json.RawMessage(late)})
+		}
+		if pm, err := c.Ledger.GetInterchainMeta(r.height); err == nil && pm != nil {
+			c2, t2, m2 := w.renderMeta(pm)
+			pers, _ := json.Marshal([]interface{}{c2, t2, m2})
+			if string(pers) != r.at {
+				mut = append(mut, []interface{}{r.block, "persisted", json.RawMessage(r.at), json.RawMessage(pers)})
+			}
+		}
+	}
+	out["mut"] = orEmpty(mut)
 	out["blocks"] = orEmpty(blocksOut)
 	return out, nil
 }
